@@ -215,10 +215,17 @@ def run_paths(F, b, operands, atom_ty=None):
             args.append(Ref(hf, 0))
         else:
             args.append(v)
-    rs = ex.run(b, args)
+    from core import absexec as _ax
+    import time as _t
+    _ax.WALL_DEADLINE = _t.time() + RUN_BUDGET_S
+    try:
+        rs = ex.run(b, args)
+    finally:
+        _ax.WALL_DEADLINE = None
     return [(v, fr.env.get("__pc", ())) for v, fr in rs]
 
 
+RUN_BUDGET_S = 12      # wall-clock budget of one abstract run; beyond it the function is not judged (never a verdict)
 OPS = ("inverse", "squared", "mul_inplace", "mul")
 
 
